@@ -80,6 +80,20 @@ fn main() {
     }
     if let Some(p) = &args.replay {
         let doc = read_replay(p);
+        if let Some(k) = doc["help_bytes"].as_u64() {
+            let mut f = basis_families()[0].clone();
+            f.name = doc["name"].as_str().unwrap_or("m_sweep").into();
+            f.help = "h".repeat(k as usize);
+            let fams = [RFamily { name: "a_first".into(), ..basis_families()[0].clone() }, f, RFamily { name: "z_last".into(), ..basis_families()[0].clone() }];
+            let protos: Vec<MetricFamily> = fams.iter().map(|f| f.to_proto()).collect();
+            let r = check_stream(&schema, &protos, &fams);
+            println!("replay: size sweep with a help text of {} bytes: {:?}", k, r.as_ref().map(|b| b.len()).map_err(|e| e.0.clone()));
+            if r.is_err() {
+                println!("VIOLATION property=C13 replay={}", p);
+                std::process::exit(1);
+            }
+            std::process::exit(0);
+        }
         if let Some(fs) = doc["families"].as_array() {
             let fams: Vec<RFamily> = fs.iter().map(RFamily::from_json).collect();
             let protos: Vec<MetricFamily> = fams.iter().map(|f| f.to_proto()).collect();
@@ -93,7 +107,7 @@ fn main() {
         }
     }
     let types = [RType::Counter, RType::Gauge, RType::Histogram, RType::Summary, RType::Untyped];
-    rep.rule = "the C04 family generator over all five metric types (every float class bit-exact incl. NaN, every string of the pool as help and label value, 0-2 (thorough 3) labels, 12 bucket/quantile shapes, every timestamp), all ordered pairs/triples of a 6-family basis as streams, 20 streams placing a very large family (2 KiB token, 64+ KiB family, 400-bucket histogram) at every position among small ones, gathered output of the registry enumeration, refused families (empty / absent name, no samples) at every stream position, and call histories (failing writer at every byte offset then encode; encode, mutate through generated setters and public fields, clone, re-encode). The byte stream must split into exactly one varint-length-delimited MetricFamily per family with nothing else, and decode (wire decoder driven by proto_model.proto; unknown fields, wrong wire types, repeated singular fields, bad UTF-8 are errors) to exactly the encoded families. distinct = distinct encoded byte streams".into();
+    rep.rule = "the C04 family generator over all five metric types (every float class bit-exact incl. NaN, every string of the pool as help and label value, 0-2 (thorough 3) labels, 12 bucket/quantile shapes, every timestamp), all ordered pairs/triples of a 6-family basis as streams, a size sweep (one family grown byte by byte so that its record length takes every value up to 16500, thorough also around 2^21, between two small families), 20 streams placing a very large family (2 KiB token, 64+ KiB family, 400-bucket histogram) at every position among small ones, gathered output of the registry enumeration, refused families (empty / absent name, no samples) at every stream position, and call histories (failing writer at every byte offset then encode; encode, mutate through generated setters and public fields, clone, re-encode). The byte stream must split into exactly one varint-length-delimited MetricFamily per family with nothing else, and decode (wire decoder driven by proto_model.proto; unknown fields, wrong wire types, repeated singular fields, bad UTF-8 are errors) to exactly the encoded families. distinct = distinct encoded byte streams".into();
     rep.bounds = json!({"strings": STRS.len(), "floats": floats().len(), "types": 5});
 
     let mut run = |rep: &mut Report, fams: &[RFamily], group: &str| {
@@ -117,6 +131,61 @@ fn main() {
     // streams mixing small families with very large ones
     for st in big_streams() {
         run(&mut rep, &st, "big-stream");
+    }
+    // size sweep: one family grown byte by byte (help text of k bytes) between two small families, so that its encoded
+    // length takes every value across the one/two/three-byte (thorough: four-byte) boundaries of the length prefix
+    {
+        let small_a = RFamily { name: "a_first".into(), ..basis_families()[0].clone() };
+        let small_z = RFamily { name: "z_last".into(), ..basis_families()[0].clone() };
+        let mut lengths = std::collections::BTreeSet::new();
+        let mut ranges: Vec<std::ops::RangeInclusive<usize>> = vec![0..=16500];
+        if thorough {
+            ranges.push(2097000..=2097300);
+        }
+        for r in ranges {
+            for k2 in r.flat_map(|k| [(k, "m_sweep"), (k, "m_sweep_")]) {
+                // (the name one byte longer fills the lengths skipped when the help's own length prefix grows)
+                let (k, name) = k2;
+                let mut f = basis_families()[0].clone();
+                f.name = name.into();
+                f.help = "h".repeat(k);
+                let fams = [small_a.clone(), f, small_z.clone()];
+                let protos: Vec<MetricFamily> = fams.iter().map(|f| f.to_proto()).collect();
+                rep.evaluations += 1;
+                rep.transitions += 3;
+                match watchdog::case(|| format!("size sweep, help of {} bytes", k), || catch(|| check_stream(&schema, &protos, &fams))) {
+                    Ok(Ok(bytes)) => {
+                        // length prefix of the middle record (first record: one-byte prefix for a small family)
+                        let first = bytes[0] as usize;
+                        let mut i = 1 + first;
+                        let (mut len, mut shift) = (0usize, 0);
+                        while i < bytes.len() {
+                            len |= ((bytes[i] & 0x7f) as usize) << shift;
+                            shift += 7;
+                            i += 1;
+                            if bytes[i - 1] & 0x80 == 0 {
+                                break;
+                            }
+                        }
+                        lengths.insert(len);
+                        rep.outcome(format!("sweep:prefix-bytes:{}", shift / 7));
+                    }
+                    Ok(Err((class, detail))) => {
+                        let short: Vec<RFamily> = fams.iter().map(|f| RFamily { help: if f.help.len() > 64 { format!("<{} bytes>", f.help.len()) } else { f.help.clone() }, ..f.clone() }).collect();
+                        rep.violation(format!("{}:size-sweep", class), format!("help text of {} bytes: {}", k, detail.chars().take(300).collect::<String>()), json!({"engine":"enum","group": "size-sweep", "help_bytes": k, "name": name, "shape": short.iter().map(|f| f.to_json()).collect::<Vec<_>>(), "detail": detail.chars().take(300).collect::<String>()}));
+                    }
+                    Err(p) => rep.violation("panic:size-sweep".to_string(), format!("encoder panicked: {}", p), json!({"engine":"enum","group":"size-sweep","help_bytes": k, "detail": p})),
+                }
+            }
+        }
+        // every record length between the smallest and 16500 must have occurred
+        let lo = *lengths.iter().next().unwrap_or(&0);
+        let missing: Vec<usize> = (lo..=16500).filter(|l| !lengths.contains(l)).collect();
+        rep.extra.insert("size_sweep".into(), json!({"record_lengths_covered": lengths.len(), "from": lo, "contiguous_to": 16500, "missing": missing.len()}));
+        if !missing.is_empty() && rep.violations.is_empty() {
+            eprintln!("MACHINERY: size sweep does not cover record lengths {:?}...", &missing[..missing.len().min(5)]);
+            std::process::exit(2);
+        }
     }
     let basis = basis_families();
     for a in &basis {
